@@ -97,12 +97,22 @@ class SLUGSConnector(api.AuthAPI):
             raise exceptions.PermissionDenied(
                 "Unrecognized user ID: {}".format(user_id)
             )
+        if response.status_code != 200:
+            raise exceptions.PermissionDenied(
+                "The SLUGS service could not confirm user ID: {} "
+                "(status {})".format(user_id, response.status_code)
+            )
 
         response = requests.get(self.groups_url.format(user_id), timeout=10)
         if response.status_code == 404:
             raise exceptions.PermissionDenied(
                 "Group information could not be retrieved for user ID: "
                 "{}".format(user_id)
+            )
+        if response.status_code != 200:
+            raise exceptions.PermissionDenied(
+                "The SLUGS service could not provide group information for "
+                "user ID: {} (status {})".format(user_id, response.status_code)
             )
 
         return user_id, response.json().get('groups')
